@@ -179,12 +179,18 @@ def kinds(tier):
                             ('SHA2-256', lambda: SHA2(256), lambda: SHA2(224), 64), ('SHA2-512/224', lambda: SHA2(512, 224), lambda: SHA2(512), 128),
                             ('MD4', MD4, MD5, 64), ('MD5', MD5, MD4, 64)):
         K[nm] = Kind(nm, mk, hash_events(True, upd(b'x' * blk)) + [sib_call('sibling-h(m3)')], sibling=sb)
+    K['MD6-same-shape-other-key'] = Kind('MD6-same-shape-other-key', lambda: md6r(224, 64, b'abcde12345'),
+                                         [('h(m1)', lambda o, s: o(m1), True), ('h(600B)', lambda o, s: o(ramp(600, 3, 1)), True),
+                                          ('sibling-h(m1)', lambda o, s: s(m1), True), ('sibling-h(600B)', lambda o, s: s(ramp(600, 3, 1)), True)],
+                                         sibling=lambda: md6r(224, 64, b'0123456789'))
     K['SHA3-256'] = Kind('SHA3-256', lambda: SHA3(256),
                          [('h(m1)', lambda o, s: o(m1), True), ('h(m2)', lambda o, s: o(m2), True),
                           ('duplex(a)', lambda o, s: o.duplex(b'a'), False), sib_call('sibling-h(m3)')], sibling=lambda: SHA3(512))
     kev = [('h(m1)', lambda o, s: o(m1), True), ('h(m2)', lambda o, s: o(m2), True),
            ('h(m1,bitlen=5)', lambda o, s: o(m1, bitlen=5), True), ('h(m1,r=512)', lambda o, s: o(m1, r=512), True),
            ('h(m1,bitlen=99)!', lambda o, s: o(m1, bitlen=99), True),
+           ('h(m1,bitlen=99,r=512)!', lambda o, s: o(m1, bitlen=99, r=512), True),
+           ('h(not bytes,r=136)!', lambda o, s: o(12345, r=136), True),
            ('duplex(a)', lambda o, s: o.duplex(b'a'), False), sib_call('sibling-h(m3)')]
     K['Keccak'] = Kind('Keccak', lambda: Keccak(r=1024, c=576, len=64), kev, sibling=lambda: Keccak(b=200, r=40, len=16))
     K['keccak_256'] = Kind('keccak_256', None, kev, sibling=lambda: Keccak(b=200, r=40, len=16), singleton=('crysp.keccak', 'keccak_256'))
@@ -247,6 +253,7 @@ def kinds(tier):
     def cipher_events(n):
         return [('enc', lambda o, s: o.enc(ramp(n, 3, 1)), True), ('dec', lambda o, s: o.dec(ramp(n, 5, 2)), True), ('enc(zero)', lambda o, s: o.enc(bytes(n)), True),
                 ('enc(short)!', lambda o, s: o.enc(ramp(n - 1)), True), ('dec(long)!', lambda o, s: o.dec(ramp(n + 1)), True),
+                ('enc(block+00)!', lambda o, s: o.enc(ramp(n, 3, 1) + b'\0'), True), ('dec(block+00)!', lambda o, s: o.dec(ramp(n, 5, 2) + b'\0'), True),
                 ('sibling-enc', lambda o, s: s.enc(ramp(len(s.enc.__self__.K.bytes()) if False else (s.blocksize // 8), 7, 3)), True),
                 ('sibling-dec', lambda o, s: s.dec(ramp(s.blocksize // 8, 9, 5)), True)]
     K['AES-128'] = Kind('AES-128', lambda: AES(ramp(16)), cipher_events(16), sibling=lambda: AES(ramp(32, 3)))
@@ -343,7 +350,7 @@ def depth(tier):
 
 def subchecks():
     return [hsub('histories', systems, depth,
-                 bound='59 object kinds (SHA1/SHA0/SHA2/SHA3/Keccak/MD4/MD5/MD6 x3/Blake x2/Blake2 x2/Skein x4/HMAC x2/TLSH/Nilsimsa/AES x2/DES/TDEA/Serpent/Threefish x2/ECB x2/CBC x2/CTR/CTS x2/Salsa20/Chacha/crc and the module singletons keccak_256, blake256, blake2b, blake2s, tlsh), each with 4-9 events (one-shot calls incl. per-call options and calls that raise; perturbations: unfinished updates, duplex, suspended keystream generators, sibling instances, shared inner objects); all histories to depth 3 (thorough 5), deduplicated by the canonical state of object + sibling; the module- and class-level state of the library is part of the canonical state (histories that change it are explored further) and reference answers come from forked children that start from the import-time state')]
+                 bound='60 object kinds (SHA1/SHA0/SHA2/SHA3/Keccak/MD4/MD5/MD6 x3/Blake x2/Blake2 x2/Skein x4/HMAC x2/TLSH/Nilsimsa/AES x2/DES/TDEA/Serpent/Threefish x2/ECB x2/CBC x2/CTR/CTS x2/Salsa20/Chacha/crc and the module singletons keccak_256, blake256, blake2b, blake2s, tlsh), each with 4-9 events (one-shot calls incl. per-call options and calls that raise; perturbations: unfinished updates, duplex, suspended keystream generators, sibling instances, shared inner objects); all histories to depth 3 (thorough 5), deduplicated by the canonical state of object + sibling; the module- and class-level state of the library is part of the canonical state (histories that change it are explored further) and reference answers come from forked children that start from the import-time state')]
 
 
 RULE = 'BFS over call histories per object kind; an observation is the returned bytes or the exception class; distinct_nontrivial counts distinct (kind,event,result) observations'
